@@ -2,7 +2,6 @@ package extract
 
 import (
 	"go/ast"
-	"go/token"
 )
 
 const (
@@ -22,27 +21,34 @@ func (c *ctx) anchorUntilParam(rel string) (field, guard string) {
 		if !ok {
 			return true
 		}
-		r := lastReturn(ifs.Body)
-		if r == nil || len(r.Results) != 1 {
-			return true
-		}
-		be, ok := r.Results[0].(*ast.BinaryExpr)
-		if !ok || be.Op != token.ADD {
-			return true
-		}
-		for _, side := range []ast.Expr{be.X, be.Y} {
-			call, ok := side.(*ast.CallExpr)
+		// the protocol field that enters the default expiry: `int64(<recv>.<Field>)` or `….SetUint64(<recv>.<Field>)`
+		// somewhere in the branch taken when only `from` is set
+		ast.Inspect(ifs.Body, func(m ast.Node) bool {
+			call, ok := m.(*ast.CallExpr)
 			if !ok || len(call.Args) != 1 {
-				continue
+				return true
 			}
-			if id, ok := call.Fun.(*ast.Ident); !ok || id.Name != "int64" {
-				continue
+			isConv := false
+			switch fn := call.Fun.(type) {
+			case *ast.Ident:
+				isConv = fn.Name == "int64"
+			case *ast.SelectorExpr:
+				isConv = fn.Sel.Name == "SetUint64"
+			}
+			if !isConv {
+				return true
 			}
 			if sel, ok := call.Args[0].(*ast.SelectorExpr); ok {
-				field = sel.Sel.Name
+				if field != "" && field != sel.Sel.Name {
+					field = "<several>"
+				} else {
+					field = sel.Sel.Name
+				}
 				guard = c.src(ifs.Cond)
 			}
-		}
+			return true
+		})
+		return false
 		return true
 	})
 	return field, guard
@@ -66,6 +72,11 @@ func (c *ctx) window() {
 			ifs, isIf := st.(*ast.IfStmt)
 			if !isIf {
 				if r, isRet := st.(*ast.ReturnStmt); isRet && len(r.Results) == 1 && isNilIdent(r.Results[0]) {
+					continue
+				}
+				if as, isAs := st.(*ast.AssignStmt); isAs && len(as.Lhs) == 1 && len(as.Rhs) == 1 {
+					// a value the comparisons below refer to
+					items = append(items, "("+LeanStr(c.src(as.Lhs[0]))+", "+LeanStr(as.Tok.String())+", "+LeanStr(c.src(as.Rhs[0]))+")")
 					continue
 				}
 				ok = false
